@@ -278,9 +278,9 @@ func firstWord(s string) string {
 // upgrade
 
 type upgradeReq struct {
-	committedClient *ibctm.ClientState     // what the counterparty really committed (custom fields zero)
-	committedCons   *ibctm.ConsensusState  // idem
-	sentClient      *ibctm.ClientState     // what the relayer submits
+	committedClient *ibctm.ClientState    // what the counterparty really committed (custom fields zero)
+	committedCons   *ibctm.ConsensusState // idem
+	sentClient      *ibctm.ClientState    // what the relayer submits
 	sentCons        *ibctm.ConsensusState
 	planHeight      uint64
 	genuine         bool // proofs are the real proofs of the committed values under the client's upgrade path at its latest height
